@@ -1,3 +1,5 @@
 import SlipVerif.Model.Num
+import SlipVerif.Model.Totality
 import SlipVerif.Driver.Num
+import SlipVerif.Driver.Totality
 import SlipVerif.Driver.Util
